@@ -352,6 +352,9 @@ func (s *Solver) secondChance(names []string, byName map[string][]*Obligation) {
 		all := byName[n]
 		timedOut, refuted := false, false
 		for _, o := range all {
+			if o.NoRetry {
+				refuted = true
+			}
 			switch o.Result {
 			case "timeout":
 				timedOut = true
